@@ -34,7 +34,9 @@ for i in (1, 2, 3):
     meta["demo_patched_tail"] = (r1.stdout + r1.stderr)[-400:]
     if suite:
         xml = f"/tmp/junit_seed_{pid}_{i}.xml"
-        sh(f"/venv/bin/python -m pytest -q -p no:cacheprovider --timeout=900 --continue-on-collection-errors -n 10 --junitxml={xml}", timeout=3600)
+        bt = f"/tmp/pytest_bt_{pid}_{i}"
+        sh(f"/venv/bin/python -m pytest -q -p no:cacheprovider --timeout=900 --continue-on-collection-errors -n 10 --basetemp={bt} --junitxml={xml}", timeout=3600)
+        shutil.rmtree(bt, ignore_errors=True)
         passed = set()
         try:
             for tc in ET.parse(xml).getroot().iter('testcase'):
@@ -66,4 +68,3 @@ for i in (1, 2, 3):
     meta["what_i_ran"] = "demo on clean HEAD and with the patch in the scratch worktree; pinned baseline suite with the patch (pytest -n 10, junit vs BASELINE stable_pass); every claimed check with JSTAT_REPO=<patched worktree>"
     json.dump(meta, open(f"{out}/meta.json", "w"), indent=1)
     print(pid, i, "confirmed" if ok else "NOT-CONFIRMED", "caught_by", meta["caught_by"], "err", meta["analysis_error_in"], "suite_missing", meta.get("suite_stable_missing"))
-shutil.rmtree('/tmp/pytest-of-root', ignore_errors=True)
